@@ -812,8 +812,95 @@ impl Property for C08 {
         }
         // a run() that ended because of a cancellation defect is C15's finding
         o.fail = failure_for(&out, &["C08/"]);
+        if o.fail.is_none() {
+            // what was received while run() was serving is acknowledged even if the very next
+            // packet of the same read ends run()
+            let h = case_hash(case);
+            o.fail = c08_acks_before_a_fatal_packet((h % 4) as u8, (h / 4 % 3) as u8);
+            o.class("acknowledgements-owed-before-a-fatal-packet");
+        }
         o
     }
+}
+
+/// One read carries a QoS 1 PUBLISH, a QoS 2 PUBLISH, a PUBREL and then a packet that ends run()
+/// (server DISCONNECT 0x8b / reason 0, a CONNACK, or bytes that do not decode).
+fn c08_acks_before_a_fatal_packet(fatal: u8, chunking: u8) -> Option<Failure> {
+    use crate::world::World;
+    let plan = WritePlan::default();
+    let mut w = World::new();
+    if connect_and_run(&mut w, ConnectSpec::default(), &default_connack(), &plan).is_err() {
+        return None;
+    }
+    w.sync_wire();
+    let before = w.pkts.len();
+    let mut bytes = vec![];
+    let publish = |qos: u8, pid: u16| rc::encode(&rc::Packet::Publish(rc::Publish { qos, pid: Some(pid), topic: "c08/burst".into(), payload: vec![1, 2], ..Default::default() }), &rc::Form::canonical());
+    bytes.extend(publish(1, 21));
+    bytes.extend(publish(2, 22));
+    bytes.extend(rc::encode(&rc::Packet::Pubrel(rc::Ack { pid: 23, ..Default::default() }), &rc::Form::short()));
+    let name = match fatal {
+        0 => {
+            bytes.extend(rc::encode(&rc::Packet::Disconnect(rc::Disconnect { reason: 0x8b, ..Default::default() }), &rc::Form::canonical()));
+            "a server DISCONNECT (0x8b)"
+        }
+        1 => {
+            bytes.extend(rc::encode(&rc::Packet::Disconnect(rc::Disconnect::default()), &rc::Form::short()));
+            "a server DISCONNECT (reason 0)"
+        }
+        2 => {
+            bytes.extend(rc::encode(&rc::Packet::Connack(rc::Connack::default()), &rc::Form::canonical()));
+            "a CONNACK"
+        }
+        _ => {
+            bytes.extend([0x00, 0x00]);
+            "two bytes that are no packet"
+        }
+    };
+    w.tick();
+    match chunking {
+        0 => w.reader.feed(bytes),
+        1 => {
+            // everything queued before the context is polled, in two reads
+            let k = bytes.len() / 2;
+            w.reader.feed(bytes[..k].to_vec());
+            w.reader.feed(bytes[k..].to_vec());
+        }
+        _ => {
+            for c in bytes.chunks(5) {
+                w.reader.feed(c.to_vec());
+            }
+        }
+    }
+    settle(&mut w, &plan, true);
+    if let Some(p) = first_panic(&w) {
+        return Some(Failure { sig: format!("PANIC/{}", panic_sig(&p)), msg: p });
+    }
+    if w.run_result.is_none() {
+        return None; // C13 judges whether run() ends
+    }
+    w.sync_wire();
+    let acks: Vec<(u8, u16)> = w.pkts[before..]
+        .iter()
+        .filter_map(|p| match &p.decoded {
+            Ok(rc::Packet::Puback(a)) => Some((4, a.pid)),
+            Ok(rc::Packet::Pubrec(a)) => Some((5, a.pid)),
+            Ok(rc::Packet::Pubcomp(a)) => Some((7, a.pid)),
+            _ => None,
+        })
+        .collect();
+    let want = vec![(4u8, 21u16), (5, 22), (7, 23)];
+    if acks != want {
+        let what = if acks.len() < want.len() { "missing" } else { "wrong" };
+        return Some(Failure {
+            sig: format!("C08/{what}-acknowledgements-before-a-fatal-packet"),
+            msg: format!(
+                "PUBLISH QoS 1 (21), PUBLISH QoS 2 (22), PUBREL (23) followed by {name}, all readable at once: run() = {:?}; acknowledgements on the wire {acks:?}, owed {want:?}",
+                w.run_result
+            ),
+        });
+    }
+    None
 }
 
 // ---------------------------------------------------------------------------------
